@@ -33,6 +33,10 @@ for f in sorted(glob.glob(os.path.join(res_dir, 'C*_m*.json'))):
     }
     json.dump(out, open(os.path.join(dst, 'meta.json'), 'w'), indent=1)
     rows.append((base, pid, (meta.get('summary') or '')[:110], ','.join(r.get('caught_by') or []) or 'MISSED'))
+rows = []
+for mf in sorted(glob.glob(os.path.join(VERIF, 'seeded', '*', 'meta.json'))):
+    m = json.load(open(mf))
+    rows.append((m['id'], m['property'], (m.get('summary') or '')[:110], ','.join(m.get('caught_by_quick_checks') or []) or 'MISSED'))
 with open(os.path.join(VERIF, 'seeded', 'INDEX.md'), 'w') as f:
     f.write('# seeded changes (independent sub-agents) and which quick checks catch them\n\n| id | property | change | caught by |\n|---|---|---|---|\n')
     for r in rows:
